@@ -52,6 +52,12 @@ def check(model: Model, run: Run) -> None:
             v = node.value
             ok = fq == f"{CLIENT}.__init__" and isinstance(v, ast.Constant) and isinstance(v.value, int) and not isinstance(v.value, bool) and v.value >= 1
             why = "the counter may only be initialised in LDAPClient.__init__ to a positive literal"
+            if not ok and fq != f"{CLIENT}.__init__":
+                # `self.ctr = <value read from self.ctr> + <positive literal>`: Engine D evaluates it; every path through the
+                # statement must record it as an advance of the counter
+                effs = [e for p in ex.paths[CLIENT] for e in p.effects if e.func == fq and e.line == node.lineno and e.a == COUNTER and e.kind in ("counter", "attr_assign")]
+                ok = bool(effs) and all(e.kind == "counter" and isinstance(e.b, int) and e.b >= 1 for e in effs)
+                why = "the counter may only be advanced by a positive constant from its own current value"
         elif kind == "aug":
             v = node.value
             ok = isinstance(node.op, ast.Add) and isinstance(v, ast.Constant) and isinstance(v.value, int) and v.value >= 1
@@ -94,7 +100,7 @@ def check(model: Model, run: Run) -> None:
             ok = True
             if p.outcome.kind == "return":
                 # the counter ends above the value handed out, so the next call reads a fresh id
-                ok = len([c for c in p.effects if c.kind == "counter"]) >= v.k + 1
+                ok = sum(c.b for c in p.effects if c.kind == "counter" and isinstance(c.b, int)) >= v.k + 1
                 ok = ok and p.outcome.value == v
                 ok = ok and any(a.b == v for a in adds)
             run.ob("N2-stamping", ok, dict(sample, stamped=desc(v), returned=desc(p.outcome.value) if p.outcome.kind == "return" else None))
